@@ -9,7 +9,7 @@ git -C /repo apply $D/patch.diff
 cd /tmp && PYTHONPATH=/repo/src /venv/bin/python $D/demo.py > /verif/.work/demo_$S.with 2>&1; echo "$S demo with patch: exit=$? ($(tail -1 /verif/.work/demo_$S.with))"
 cd /verif
 for id in "$@"; do
-  VERIF_EVIDENCE_DIR=/verif/.work/ev_seed VERIF_REPLAY_CAP=6 ./vf check $id > /verif/.work/confirm_${S}_$id.log 2>&1
+  VERIF_EVIDENCE_DIR=/verif/.work/ev_seed VERIF_REPLAY_CAP=16 ./vf check $id > /verif/.work/confirm_${S}_$id.log 2>&1
   echo "$S check $id: exit=$? violations=$(grep -c '^VIOLATION' /verif/.work/confirm_${S}_$id.log) :: $(grep -m1 -A1 '^VIOLATION' /verif/.work/confirm_${S}_$id.log | tail -1 | cut -c1-200)"
 done
 git -C /repo checkout -- .
